@@ -1,23 +1,23 @@
 #!/usr/bin/env python3
-# Apply a seeded change to /repo, run the named checks (quick tier unless --thorough), undo the change.
+# Apply a seeded change to a scratch worktree of /repo HEAD (never to /repo itself), run the named checks against it
+# (VERIF_REPO=<worktree>, evidence redirected to a scratch directory), remove the worktree.
 #   tools/seedtest.py <patch.diff> Cxx [Cyy ...] [--thorough]
-import subprocess, sys, os
+import subprocess, sys, os, shutil
 patch = os.path.abspath(sys.argv[1]); tier = "thorough" if "--thorough" in sys.argv else "quick"
 checks = [a for a in sys.argv[2:] if not a.startswith("--")]
-assert subprocess.run(["git", "-C", "/repo", "status", "--porcelain", "--untracked-files=no"], capture_output=True, text=True).stdout.strip() == "", "/repo not clean"
-r = subprocess.run(["git", "-C", "/repo", "apply", patch], capture_output=True, text=True)
-if r.returncode:
-    r = subprocess.run(["patch", "-d", "/repo", "-p1", "--no-backup-if-mismatch", "-F3", "-i", patch], capture_output=True, text=True)
-    if r.returncode:
-        subprocess.run(["git", "-C", "/repo", "reset", "-q", "--hard", "HEAD"])
-        subprocess.run("find /repo/src -name '*.rej' -o -name '*.orig' | xargs rm -f", shell=True)
-        print("patch does not apply:", r.stdout[-300:], r.stderr[-300:]); sys.exit(3)
+wt = f"/tmp/seedwt-{os.getpid()}"; ev = f"/tmp/seedev-{os.getpid()}"
+def sh(*a, **k): return subprocess.run(list(a), capture_output=True, text=True, **k)
+sh("git", "-C", "/repo", "worktree", "add", "-q", "--detach", wt, "HEAD")
 try:
+    r = sh("git", "-C", wt, "apply", patch)
+    if r.returncode:
+        r = sh("patch", "-d", wt, "-p1", "--no-backup-if-mismatch", "-F3", "-i", patch)
+        if r.returncode: print("patch does not apply:", r.stdout[-300:], r.stderr[-300:]); sys.exit(3)
+    env = dict(os.environ, VERIF_REPO=wt, VERIF_EVIDENCE_DIR=ev)
     for c in checks:
-        r = subprocess.run([sys.executable, "/verif/vcheck.py", c, "--tier", tier], capture_output=True, text=True, cwd="/verif")
+        r = sh(sys.executable, "/verif/vcheck.py", c, "--tier", tier, cwd="/verif", env=env)
         lines = [l[:300] for l in r.stdout.splitlines() if l.startswith(("VIOLATION", "KNOWN", "  key=", c, "INFRA"))]
-        print(f"== {c} rc={r.returncode}"); print("\n".join(lines[:12]))
+        print(f"== {c} rc={r.returncode}"); print("\n".join(lines[:12]), flush=True)
         if r.returncode == 2: print(r.stdout[-1500:], r.stderr[-1500:])
 finally:
-    subprocess.run(["git", "-C", "/repo", "reset", "-q", "--hard", "HEAD"])
-    subprocess.run(["git", "-C", "/repo", "checkout", "--", "."])
+    sh("git", "-C", "/repo", "worktree", "remove", "--force", wt); shutil.rmtree(wt, ignore_errors=True); sh("git", "-C", "/repo", "worktree", "prune"); shutil.rmtree(ev, ignore_errors=True)
